@@ -373,6 +373,16 @@ func (ts *TermStore) Eq(a, b *Term) *Term {
 			return ts.And(cs...)
 		}
 	}
+	if a.S.K == SString && a.Op == OIte {
+		if n := ts.iteOfUnits(a, 16); n > 1 {
+			return ts.lift1Bool(a, func(x *Term) *Term { return ts.Eq(x, b) })
+		}
+	}
+	if a.S.K == SString && b.Op == OIte {
+		if n := ts.iteOfUnits(b, 16); n > 1 {
+			return ts.lift1Bool(b, func(y *Term) *Term { return ts.Eq(a, y) })
+		}
+	}
 	// finite-domain lifting: equality of ite-trees over constants
 	if a.Op == OIte || b.Op == OIte {
 		na, nb := iteLeafCount(a, liftLimit), iteLeafCount(b, liftLimit)
@@ -787,6 +797,9 @@ func (ts *TermStore) StrLen(a *Term) *Term {
 		if r, ok := ts.liftArgs([]*Term{a}, func(c []*Term) *Term { return ts.StrLen(c[0]) }); ok {
 			return r
 		}
+		if n := ts.iteOfUnits(a, 16); n > 1 {
+			return ts.distribute(a, func(x *Term) *Term { return ts.StrLen(x) })
+		}
 	}
 	if a.Op == OStrConcat {
 		sum := ts.Int(0)
@@ -799,6 +812,49 @@ func (ts *TermStore) StrLen(a *Term) *Term {
 		return ts.Int(1)
 	}
 	return ts.mk(OStrLen, BVSort(64), a)
+}
+
+// iteOfUnits reports whether t is an ite-tree (at most limit leaves) whose leaves are all
+// unit sequences (or constants): an operation can then be distributed over the branches.
+func (ts *TermStore) iteOfUnits(t *Term, limit int) int {
+	if t.Op == OIte && t.S.K == SString {
+		if _, ok := ts.units(t); ok {
+			return 1 // a single-character ite is itself a unit
+		}
+		a := ts.iteOfUnits(t.Args[1], limit)
+		if a < 0 || a > limit {
+			return -1
+		}
+		b := ts.iteOfUnits(t.Args[2], limit-a)
+		if b < 0 || a+b > limit {
+			return -1
+		}
+		return a + b
+	}
+	if _, ok := ts.units(t); ok {
+		return 1
+	}
+	return -1
+}
+
+// distribute applies f to the leaves of an ite-tree of unit sequences.
+func (ts *TermStore) distribute(t *Term, f func(*Term) *Term) *Term {
+	if t.Op == OIte && t.S.K == SString {
+		if _, ok := ts.units(t); !ok {
+			return ts.Ite(t.Args[0], ts.distribute(t.Args[1], f), ts.distribute(t.Args[2], f))
+		}
+	}
+	return f(t)
+}
+
+// lift1Bool distributes a Boolean-valued f over an ite-tree of unit sequences.
+func (ts *TermStore) lift1Bool(t *Term, f func(*Term) *Term) *Term {
+	if t.Op == OIte && t.S.K == SString {
+		if _, ok := ts.units(t); !ok {
+			return ts.Ite(t.Args[0], ts.lift1Bool(t.Args[1], f), ts.lift1Bool(t.Args[2], f))
+		}
+	}
+	return f(t)
 }
 
 // constPrefix returns the longest constant prefix of a string term and whether
@@ -960,6 +1016,11 @@ func (ts *TermStore) StrSubstr(a, off, n *Term) *Term {
 			return ts.StrConcat(u[o:e]...)
 		}
 	}
+	if a.Op == OIte {
+		if n0 := ts.iteOfUnits(a, 16); n0 > 1 {
+			return ts.distribute(a, func(x *Term) *Term { return ts.StrSubstr(x, off, n) })
+		}
+	}
 	if a.Op == OStrConcat && off.IsConst() && a.Args[0].IsConst() {
 		cp := a.Args[0].Str
 		o := signed(off.BV, 64)
@@ -1051,6 +1112,56 @@ func (ts *TermStore) StrPred(op Op, a, b *Term) *Term {
 	if r, ok := ts.liftArgs([]*Term{a, b}, func(c []*Term) *Term { return ts.StrPred(op, c[0], c[1]) }); ok {
 		return r
 	}
+	if a.Op == OIte {
+		if n := ts.iteOfUnits(a, 16); n > 1 {
+			return ts.lift1Bool(a, func(x *Term) *Term { return ts.StrPred(op, x, b) })
+		}
+	}
+	if b.Op == OIte {
+		if n := ts.iteOfUnits(b, 16); n > 1 {
+			return ts.lift1Bool(b, func(y *Term) *Term { return ts.StrPred(op, a, y) })
+		}
+	}
+	if op == OStrLt || op == OStrLe {
+		// byte-wise lexicographic order on unit sequences: pure bit-vector comparison
+		ua, oka := ts.units(a)
+		ub, okb := ts.units(b)
+		if oka && okb && len(ua) <= 64 && len(ub) <= 64 {
+			n := len(ua)
+			if len(ub) < n {
+				n = len(ub)
+			}
+			eqPrefix := ts.T
+			var lt []*Term
+			for i := 0; i < n; i++ {
+				ca, cb := ts.unitCode(ua[i]), ts.unitCode(ub[i])
+				lt = append(lt, ts.And(eqPrefix, ts.BvCmp(OBvUlt, ca, cb)))
+				eqPrefix = ts.And(eqPrefix, ts.Eq(ca, cb))
+			}
+			// equal on the common prefix: the shorter one is smaller; equal strings only satisfy <=
+			switch {
+			case len(ua) < len(ub):
+				lt = append(lt, eqPrefix)
+			case len(ua) == len(ub) && op == OStrLe:
+				lt = append(lt, eqPrefix)
+			}
+			return ts.Or(lt...)
+		}
+	}
+	if op == OStrPrefixOf {
+		ua, oka := ts.units(a)
+		ub, okb := ts.units(b)
+		if oka && okb {
+			if len(ua) > len(ub) {
+				return ts.F
+			}
+			var eq []*Term
+			for i := range ua {
+				eq = append(eq, ts.Eq(ts.unitCode(ua[i]), ts.unitCode(ub[i])))
+			}
+			return ts.And(eq...)
+		}
+	}
 	return ts.mk(op, BoolSort, a, b)
 }
 
@@ -1075,6 +1186,21 @@ func (ts *TermStore) StrIndexOf(s, sub, from *Term) *Term {
 	}
 	if r, ok := ts.liftArgs([]*Term{s, sub, from}, func(c []*Term) *Term { return ts.StrIndexOf(c[0], c[1], c[2]) }); ok {
 		return r
+	}
+	if s.Op == OIte && sub.IsConst() && from.IsConst() {
+		if n := ts.iteOfUnits(s, 16); n > 1 {
+			return ts.distribute(s, func(x *Term) *Term { return ts.StrIndexOf(x, sub, from) })
+		}
+	}
+	if sub.IsConst() && len(sub.Str) == 1 && from.IsConst() {
+		if u, ok := ts.units(s); ok && len(u) <= 128 {
+			res := ts.Int(-1)
+			ch := ts.Int(int64(sub.Str[0]))
+			for i := len(u) - 1; i >= int(from.BV) && i >= 0; i-- {
+				res = ts.Ite(ts.Eq(ts.unitCode(u[i]), ch), ts.Int(int64(i)), res)
+			}
+			return res
+		}
 	}
 	return ts.mk(OStrIndexOf, BVSort(64), s, sub, from)
 }
